@@ -395,6 +395,10 @@ func c13Scenario(cs *Case, base *Pop, f c13Fault, second *c13Fault, auto bool, n
 	conflicts := len(res.Conflicts) > 0
 	refreshMustFail := len(mustErr) > 0
 	refreshMustSucceed := len(mustErr) == 0 && !conflicts && !anyDirFault
+	if f.kind == "linkdir-spec" || (second != nil && second.kind == "linkdir-spec") {
+		// whether a Spec-named link to a directory counts as a Spec file in error is not pinned down
+		refreshMustSucceed = false
+	}
 	pos := func(ft c13Fault) string {
 		ph := ft.target
 		if ft.kind != "missing" && ft.kind != "isfile" && ft.kind != "enotdir" && ft.kind != "noread" && ft.kind != "nosearch" {
